@@ -130,7 +130,7 @@ class C14(Prop):
             'Non-trivial = at least one corrupted cell; distinct = distinct (step, policy, corrupted types, number of sites, site positions first/middle/last).')
     ASSUMPTIONS = ['"Table Schema\'s cast" = tableschema.Field(descriptor, missing_values=[""]).cast_value', 'rows are observed through datastream() (the step\'s raw output)']
     REAL_VS_STUB = {'real': ['dataflows set_type / validate / schema_validator, tableschema casts'], 'stub': ['corrupt-cell injector between source and step', 'logging custom handlers answering by a seeded pattern']}
-    PROBES = ['validate-with-resources-selector', 'two-sites-in-one-row', 'site-in-first-row', 'site-in-last-row', 'required-null', 'regex-multi-field', 'resources-selected', 'transform', 'constraint-minimum', 'date-format',
+    PROBES = ['sibling-field-name-extends-the-literal-name', 'validate-with-resources-selector', 'two-sites-in-one-row', 'site-in-first-row', 'site-in-last-row', 'required-null', 'regex-multi-field', 'resources-selected', 'transform', 'constraint-minimum', 'date-format',
               'failing-field-followed-by-lexical-field', 'set_type-without-type-argument', 'equal-values-of-different-python-types'] + ['policy:' + p for p in POLICIES]
     TIERS = {'quick': dict(runs=3000, wall=100, run_wall=300),
              'thorough': dict(runs=60000, wall=1700, run_wall=600)}
@@ -221,6 +221,14 @@ class C14(Prop):
                     f.pop('options', None)
                     for row in ot['rows']:
                         row[ci] = None if row[ci] is None else (str(row[ci]) if not isinstance(row[ci], dict) else 'x')
+            if len(step['set_types']) == 1 and len(chosen) == 1 and not step['set_types'][0].get('regex') and rng.random() < 0.5:
+                # a sibling field whose name merely *starts with* the literal name given to set_type: not selected, not checked
+                t = tables[ti]
+                sib = {'name': list(chosen)[0] + ' (old)', 'type': 'string'}
+                t['fields'].append(sib)
+                for row in t['rows']:
+                    row.append(rng.choice(['n/a', 'abc', None, '12x']))
+                step['sibling'] = sib['name']
         sites = []
         checked_tabs = [ti for ti, t in enumerate(tables) if any(f.get('checked') for f in t['fields']) and t['rows']]
         nsites = rng.choice([0, 1, 1, 2, 3, 4]) if checked_tabs else 0
@@ -253,6 +261,8 @@ class C14(Prop):
         return {'tables': tables, 'step': step, 'policy': rng.choice(POLICIES), 'sites': sites, 'answers': [rng.random() < 0.6 for _ in range(rng.randrange(1, 4))]}
 
     def execute(self, sc, ctx):
+        if (sc.get('step') or {}).get('sibling'):
+            ctx.probe('sibling-field-name-extends-the-literal-name')
         if (sc.get('step') or {}).get('kind') == 'validate' and 'resources' in (sc.get('step') or {}):
             ctx.probe('validate-with-resources-selector')
         step, pol = sc['step'], sc['policy']
